@@ -123,7 +123,7 @@ def run_case(case, clock):
                 marks.add('datetime_deadline')
                 deadline = datetime.fromtimestamp(now + interval[1]).replace(microsecond=interval[2])
                 obj = Timer(deadline, Event.create('tmr', tid), persist=persist)
-                eff = float(int(now + interval[1])) - now   # whole-second resolution
+                eff = float(int(deadline.timestamp())) - now   # the deadline counts at whole-second resolution
             else:
                 obj = Timer(interval, Event.create('tmr', tid), persist=persist)
                 eff = interval
